@@ -410,6 +410,12 @@ def run(ctx) -> None:
     ctx.guard(forwarding_discipline, "R12.12", ['private', 'password', 'encoding', 'params'], 21)  # arguments are handed on under their own name (generic routing rule, rules/common.py)
     ctx.guard(r12_11)
     ctx.guard(r12_13)
+    # "every JWS/JWE/JWT serialization contains none of the private parameters": the header encoder serialises JSON values only (no default= hook that
+    # would turn a Key object given as "jwk" into its full dict), and "jwk" header values are validated as plain dicts
+    from .c07 import r07_5
+    from .c15 import r15_3
+    ctx.guard_as("R12.14", r07_5)
+    ctx.guard_as("R12.14", r15_3)
     # a key's JWK view holds only its own material: no method of a key class writes into an object shared with other keys / the caller
     from .c20 import r20_1, key_class_functions
     from ..effects import Effects
